@@ -73,10 +73,14 @@ func run6(f []string) (string, bool) {
 				if err != nil {
 					fmt.Fprintf(&sb, "%d:err;", pos)
 				} else {
+					holdS("RandomSecret", s)
 					fmt.Fprintf(&sb, "%d:%s;", pos, s)
 				}
 			}
 		})
+		if msg, bad := heldChanged(); bad {
+			return msg, true
+		}
 		return sb.String(), true
 	}
 	return run7(f)
